@@ -52,6 +52,9 @@ pub struct Case {
     /// at the FDT's and the object's arrival enter the estimate, so the outcome must not change
     #[serde(default)]
     pub pre_step_back: i64,
+    /// the FDT packets announce FLUTE version 1 (RFC 3926 profile of the sender): the SCT is used all the same
+    #[serde(default)]
+    pub fdt_v1: bool,
 }
 
 const S0: u64 = EPOCH_2027 + 86_400; // sender time when the (last packet of the) FDT is sent
@@ -130,8 +133,10 @@ fn obj_sender_time(c: &Case, g: i64) -> i64 {
 
 pub fn run_case(c: &Case) -> Outcome {
     SCT_FORM.with(|f| f.set(c.sct_form));
+    FDT_VERSION.with(|f| f.set(if c.fdt_v1 { 1 } else { 2 }));
     let o = run_case_inner(c);
     SCT_FORM.with(|f| f.set(0));
+    FDT_VERSION.with(|f| f.set(2));
     o
 }
 
@@ -365,27 +370,28 @@ pub fn run(thorough: bool) -> i32 {
                                 continue;
                             }
                             for (multi, spread) in [(false, 0i64), (true, 1), (true, 40)] {
-                                cases.push(Case { sct_minus_expires: d, sct_present, offset, check, timing, obj_est_minus_expires: g, multi, spread, second_session: false, far_expires: false, repeat_fdt: false, receive_twice: false, sct_form: 0, pre_step_back: 0 });
+                                cases.push(Case { sct_minus_expires: d, sct_present, offset, check, timing, obj_est_minus_expires: g, multi, spread, second_session: false, far_expires: false, repeat_fdt: false, receive_twice: false, sct_form: 0, pre_step_back: 0, fdt_v1: false });
                                 if !multi {
+                                    cases.push(Case { sct_minus_expires: d, sct_present, offset, check, timing, obj_est_minus_expires: g, multi, spread, second_session: false, far_expires: false, repeat_fdt: false, receive_twice: false, sct_form: 0, pre_step_back: 0, fdt_v1: true });
                                     for pre_step_back in [20i64, 7200] {
-                                        cases.push(Case { sct_minus_expires: d, sct_present, offset, check, timing, obj_est_minus_expires: g, multi, spread, second_session: false, far_expires: false, repeat_fdt: false, receive_twice: false, sct_form: 0, pre_step_back });
+                                        cases.push(Case { sct_minus_expires: d, sct_present, offset, check, timing, obj_est_minus_expires: g, multi, spread, second_session: false, far_expires: false, repeat_fdt: false, receive_twice: false, sct_form: 0, pre_step_back, fdt_v1: false });
                                     }
                                 }
                                 if sct_present && spread <= 1 {
                                     for sct_form in 1..=3u8 {
-                                        cases.push(Case { sct_minus_expires: d, sct_present, offset, check, timing, obj_est_minus_expires: g, multi, spread, second_session: false, far_expires: false, repeat_fdt: false, receive_twice: false, sct_form, pre_step_back: 0 });
+                                        cases.push(Case { sct_minus_expires: d, sct_present, offset, check, timing, obj_est_minus_expires: g, multi, spread, second_session: false, far_expires: false, repeat_fdt: false, receive_twice: false, sct_form, pre_step_back: 0, fdt_v1: false });
                                     }
                                 }
                                 if !multi && matches!(timing, 0 | 3) {
                                     for receive_twice in [false, true] {
-                                        cases.push(Case { sct_minus_expires: d, sct_present, offset, check, timing, obj_est_minus_expires: g, multi, spread, second_session: false, far_expires: false, repeat_fdt: true, receive_twice, sct_form: 0, pre_step_back: 0 });
+                                        cases.push(Case { sct_minus_expires: d, sct_present, offset, check, timing, obj_est_minus_expires: g, multi, spread, second_session: false, far_expires: false, repeat_fdt: true, receive_twice, sct_form: 0, pre_step_back: 0, fdt_v1: false });
                                     }
                                 }
                                 if !check && !multi && timing <= 2 {
-                                    cases.push(Case { sct_minus_expires: d, sct_present, offset, check, timing, obj_est_minus_expires: g, multi, spread, second_session: false, far_expires: true, repeat_fdt: false, receive_twice: false, sct_form: 0, pre_step_back: 0 });
+                                    cases.push(Case { sct_minus_expires: d, sct_present, offset, check, timing, obj_est_minus_expires: g, multi, spread, second_session: false, far_expires: true, repeat_fdt: false, receive_twice: false, sct_form: 0, pre_step_back: 0, fdt_v1: false });
                                 }
                                 if !multi {
-                                    cases.push(Case { sct_minus_expires: d, sct_present, offset, check, timing, obj_est_minus_expires: g, multi, spread, second_session: true, far_expires: false, repeat_fdt: false, receive_twice: timing == 4, sct_form: 0, pre_step_back: 0 });
+                                    cases.push(Case { sct_minus_expires: d, sct_present, offset, check, timing, obj_est_minus_expires: g, multi, spread, second_session: true, far_expires: false, repeat_fdt: false, receive_twice: timing == 4, sct_form: 0, pre_step_back: 0, fdt_v1: false });
                                 }
                             }
                         }
